@@ -31,6 +31,8 @@ inductive FE where
   | delV (x : String)                               -- delete x
   | delX (e : FE)                                   -- delete (e), e not a reference (a conditional, (0, e))
   | cond (t : FE) (a : FE) (b : FE)                 -- (t ? a : b)
+  | protoOf (e : FE)                                -- Object.getPrototypeOf(e)
+  | regex                                           -- the regular expression literal /x/
   | defRO (o : FE) (p : String) (e : FE)            -- Object.defineProperty(o, "p", {value: e, writable: false,
                                                     --   enumerable: true, configurable: true})
   | call (f : FE) (args : FEs)                      -- f(args): no base object
